@@ -1247,6 +1247,7 @@ class Tracer:
         self.cptrs = c_pointer_names(func)
         self.typed = typed_locals(func, stmts)
         self.pending = []       # exceptional exits met while evaluating the current expression
+        self.loop_depth = 0
         self.site = {}
         sites = []
         for st in stmts:
@@ -1365,6 +1366,22 @@ class Tracer:
     def stmt(self, st, p):
         if isinstance(st, (ast.Pass, ast.Global, ast.Nonlocal, ast.Import, ast.ImportFrom)):
             return [p]
+        if isinstance(st, ast.Expr) and isinstance(st.value, ast.IfExp):
+            # `f(x) if c else g(x)` as a statement is `if c: f(x)` / `else: g(x)`
+            v = st.value
+            new = ast.If(test=v.test, body=[ast.Expr(value=v.body)], orelse=[ast.Expr(value=v.orelse)])
+            for n in (new, new.body[0], new.orelse[0]):
+                ast.copy_location(n, st)
+            return self.if_(new, p)
+        if isinstance(st, ast.Expr) and isinstance(st.value, ast.BoolOp) and len(st.value.values) >= 2:
+            # `a and f(x)` as a statement is `if a: f(x)`; `a or f(x)` is `if not a: f(x)`
+            v = st.value
+            rest = v.values[1] if len(v.values) == 2 else ast.BoolOp(op=v.op, values=v.values[1:])
+            test = v.values[0] if isinstance(v.op, ast.And) else ast.UnaryOp(op=ast.Not(), operand=v.values[0])
+            new = ast.If(test=test, body=[ast.Expr(value=rest)], orelse=[])
+            for n in (new, new.body[0], test, rest):
+                ast.copy_location(n, st)
+            return self.if_(new, p)
         if isinstance(st, ast.Expr):
             self.ev(st.value, p)
             if isinstance(st.value, ast.Call):
@@ -1424,7 +1441,13 @@ class Tracer:
                         raise Uncovered(f'line {st.lineno}: returns an untracked value from a node-returning function')
                     p.events.append(('retNode', x))
                 else:
-                    p.events.append(('retHandle',))
+                    # `return i, sy.sylvan_low(u.node), w`: a raw node inside a returned tuple / list /
+                    # dict / set reaches Python without a handle
+                    x = self.raw_node_in(v, p)
+                    if x is not None:
+                        p.events.append(('retNode', x))
+                    else:
+                        p.events.append(('retHandle',))
             p.done = True
             return [p]
         if isinstance(st, ast.Raise):
@@ -1511,11 +1534,21 @@ class Tracer:
                     self.bind(t, ('other',), p, st)
             return
         if isinstance(target, (ast.Subscript, ast.Attribute)):
+            # `d['a'] = 1`, `obj.flag = 1`: what a test said about the object may have changed
+            root = target.value
+            while isinstance(root, (ast.Subscript, ast.Attribute)):
+                root = root.value
+            if isinstance(root, ast.Name):
+                self.forget(root.id, p)
             # evaluate the target's sub-expressions for events
             if isinstance(target, ast.Subscript):
                 base = self.ev(target.value, p)
                 self.ev(target.slice, p)
                 self.raise_point(target, p)
+                if self.is_cont(base) and not self.is_python_cont(base) and self.loop_depth > 0 \
+                        and self.int_const(target.slice) is not None:
+                    raise Uncovered(f'line {st.lineno}: a loop stores into the constant slot '
+                                    f'`{_src(target)}` of an array (every iteration overwrites the same slot)')
                 if self.is_cont(base):
                     # `vector[i] = g.node`, `table[t] = <stdint.uintptr_t>r`
                     x = self.node_of(v, p)
@@ -1818,7 +1851,11 @@ class Tracer:
                 q.events.append(('iterBegin',))
                 if isinstance(st, ast.For):
                     self.bind_opaque(st.target, q)
-                res = self.block(st.body, [q])
+                self.loop_depth += 1
+                try:
+                    res = self.block(st.body, [q])
+                finally:
+                    self.loop_depth -= 1
                 for r in res:
                     if r.done:
                         out.append(r)
@@ -1951,6 +1988,19 @@ class Tracer:
         return outs
 
     # -- expressions -----------------------------------------------------------------
+    def raw_node_in(self, v, p):
+        """First raw node among the elements of a (nested) container display."""
+        if v[0] != 'tuple':
+            return None
+        for x in v[1]:
+            if x[0] == 'tuple':
+                r = self.raw_node_in(x, p)
+                if r is not None:
+                    return r
+            elif x[0] == 'node' or (x[0] == 'param' and (x[1].endswith('.node') or self.param_is_node(x[1]))):
+                return self.node_of(x, p)
+        return None
+
     def as_node(self, v, e, p):
         """Node id of a value in node position (lazily for parameters)."""
         if v[0] == 'node':
@@ -2082,6 +2132,10 @@ class Tracer:
         if isinstance(e, ast.Dict) and not e.keys:
             p.ntok += 1
             return ('pycont', 'dict', e.lineno, p.ntok)
+        if isinstance(e, (ast.Dict, ast.Set)):
+            elts = [x for x in (list(e.keys) + list(e.values) if isinstance(e, ast.Dict) else e.elts)
+                    if x is not None]
+            return ('tuple', [self.ev(x, p) for x in elts])
         if isinstance(e, (ast.Tuple, ast.List)):
             return ('tuple', [self.ev(x, p) for x in e.elts])
         if isinstance(e, (ast.Lambda, ast.ListComp, ast.SetComp, ast.DictComp, ast.GeneratorExp)):
@@ -2091,9 +2145,20 @@ class Tracer:
                 self.raise_point(e, p)      # `{k: self.var(v) for k, v in d.items()}` runs here
             return ('other',)
         if isinstance(e, ast.IfExp):
+            # only one arm is evaluated: as a statement it is rewritten into `if` (`stmt`); anywhere
+            # else an arm with node events is not followed
+            if _has_relevant_call(e.body, self) or _has_relevant_call(e.orelse, self):
+                raise Uncovered(f'line {e.lineno}: node events inside a conditional expression')
             self.ev(e.test, p)
             self.ev(e.body, p)
             self.ev(e.orelse, p)
+            return ('other',)
+        if isinstance(e, ast.BoolOp):
+            # `c and Cudd_Ref(t)`: the operands after the first are evaluated conditionally
+            if any(_has_relevant_call(x, self) for x in e.values[1:]):
+                raise Uncovered(f'line {e.lineno}: node events under `and` / `or`')
+            for x in e.values:
+                self.ev(x, p)
             return ('other',)
         if isinstance(e, ast.JoinedStr):
             return ('other',)
@@ -2232,8 +2297,11 @@ class Tracer:
             if isinstance(c.func.value, ast.Name):
                 self.forget(c.func.value.id, p)     # `d.clear()` may change what `k in d` said
         raw = False
+        hand = False
         for a in list(c.args) + [k.value for k in c.keywords]:
             v = self.ev(a, p)
+            if v[0] == 'handle' and v[1] is not None:
+                hand = True
             if v[0] == 'cont' and v[2] == 'nodes':
                 p.events.append(('passC', v[1], cn))
             elif v[0] == 'pycont' and v in p.env:
@@ -2247,6 +2315,11 @@ class Tracer:
             # defined in this module: it may take or give back a reference
             raise Uncovered(f'line {c.lineno}: a node is passed to `{fn}`, which is neither declared nor '
                             'defined in the module')
+        if hand and last not in self.known_callees:
+            # `_bump(self, f)` with `_bump = BDD.incref` at module level, `self._keep(f)`, a module-level
+            # lambda: a handle made in this function goes to something the reader cannot look into
+            raise Uncovered(f'line {c.lineno}: a handle made in this function is passed to `{fn}`, which is '
+                            'neither declared nor defined in the module')
         self.raise_point(c, p)
         return ('other',)
 
@@ -2504,6 +2577,32 @@ def classify_raising(mod):
     mod['returns_typed'] = {n for n, r in rets.items() if r <= set(TYPETEST_TYPES)}
 
 
+def module_level_ref_mentions(mod):
+    """Logical lines OUTSIDE every function body and every `cdef extern` block that mention a
+    reference-count function or method (`_bump = BDD.incref`, `_leak = lambda u: Cudd_Ref(u.node)`):
+    code that runs at import time or is reached through a name the reader does not follow."""
+    names = REF_FNS + DEREF_FNS + REF_METHODS + DEREF_METHODS
+    pat = re.compile(r'(?<![\w])(' + '|'.join(re.escape(n) for n in names) + r')(?![\w])')
+    spans = [(f.lineno, f.end) for f in mod['funcs']]
+    out = []
+    ext = None
+    for ll in mod['lls']:
+        if ext is not None and ll.indent <= ext:
+            ext = None
+        if re.match(r'^cdef\s+extern\s+from\b', ll.text):
+            ext = ll.indent
+            continue
+        if ext is not None:
+            continue
+        if any(a <= ll.lineno <= b for a, b in spans):
+            continue
+        if re.match(r'^(def|cpdef|cdef|async\s+def)\s', ll.text) and ll.mask.rstrip().endswith(':'):
+            continue
+        if pat.search(ll.mask):
+            out.append((ll.lineno, ' '.join(ll.text.split())[:120]))
+    return out
+
+
 def ref_traces(repo, mod):
     """(methods, uncovered): methods = [dict(name, line, role, returns_node, paths, names)]."""
     mod['known_callees'] = known_callees(repo, mod)
@@ -2571,6 +2670,7 @@ def ref_traces(repo, mod):
             nested += sum(1 for n in ast.walk(st) if isinstance(n, (ast.FunctionDef, ast.AsyncFunctionDef)))
     mod['def_tokens'] = count_def_tokens(mod['lls'])
     mod['nested_defs'] = nested
+    mod['module_level_refs'] = module_level_ref_mentions(mod)
     mod['has_ref_field'] = any(re.match(r'^cdef\s+(?:public\s+|readonly\s+)?int\s+' + REF_FIELD + r'\b', ll.text)
                                for ll in mod['lls'])
     return methods, uncovered, n_plain
@@ -2634,10 +2734,24 @@ def lean_method(tag, m):
 # everything, as Python data and as Lean text
 # ---------------------------------------------------------------------------
 
+def direct_decref_users(repo):
+    """(file, line) of every call that passes `_direct=True` in `dd/*.py`, `dd/*.pyx`."""
+    out = []
+    d = os.path.join(repo, 'dd')
+    for fn in sorted(os.listdir(d)):
+        if not fn.endswith(('.py', '.pyx')):
+            continue
+        for ll in logical_lines(open(os.path.join(d, fn)).read()):
+            if re.search(r'\b_direct\s*=\s*True\b', ll.mask) and not re.match(r'^(def|cpdef|cdef)\s', ll.text):
+                out.append(('dd/' + fn, ll.lineno))
+    return out
+
+
 def extract_all(repo):
     """{'apply': [table per back end], 'traces': {tag: [method]}, 'uncovered': {tag: [...]},
     'irrelevant': {tag: n}} -- deterministic (source order)."""
     data = dict(apply=[], operators={}, traces={}, uncovered={}, irrelevant={}, nfuncs={}, local={})
+    data['direct_decref_users'] = direct_decref_users(repo)
     for tag, _f, _c, _p, _d in BACKENDS:
         mod = load_backend(repo, tag)
         data['apply'].append(apply_table(repo, mod))
@@ -2655,6 +2769,7 @@ def extract_all(repo):
         data.setdefault('nested_defs', {})[tag] = mod['nested_defs']
         data.setdefault('has_ref_field', {})[tag] = mod['has_ref_field']
         data['local'][tag] = sorted(mod['local'])
+        data.setdefault('module_level_refs', {})[tag] = mod['module_level_refs']
         data.setdefault('noraise_local', {})[tag] = sorted(mod.get('noraise_local', ()))
     return data
 
@@ -2738,6 +2853,16 @@ def lean_ctables(data):
         xl.append(f'(.{tag}, {_ls(name)}, {_ls(site)}, [' + ', '.join(f'({_ls(d)}, {k})' for d, k in held) + '])')
     L.append('def cExitLeaksPy : List (Backend × String × String × List (String × Int)) := [\n  '
              + ',\n  '.join(xl) + ']')
+    L.append('/-- lines outside every function body and `extern` block that mention a reference-count function '
+             '(`_bump = BDD.incref`, a module-level lambda): (back end, line, text) -/')
+    mr = []
+    for tag, rows in data.get('module_level_refs', {}).items():
+        for line, text in rows:
+            mr.append(f'(.{tag}, {line}, {_ls(text)})')
+    L.append('def cModuleLevelRefs : List (Backend × Nat × String) := [' + ',\n  '.join(mr) + ']')
+    L.append('/-- every call in `dd/*.py`, `dd/*.pyx` that passes `_direct=True` (to `decref`): (file, line) -/')
+    L.append('def cDirectDecrefUsers : List (String × Nat) := [' + ', '.join(
+        f'({_ls(f)}, {n})' for f, n in data.get('direct_decref_users', [])) + ']')
     L.append('/-- the `cdef` functions of each module that the reader classifies as unable to raise -/')
     L.append('def cNoRaiseLocal : List (Backend × List String) := [' + ', '.join(
         f'(.{tag}, [' + ', '.join(_ls(x) for x in xs) + '])' for tag, xs in data.get('noraise_local', {}).items()) + ']')
@@ -2763,5 +2888,7 @@ def lean_ctables_stub(err):
          'def cCacheTags : List (Backend × String × List String × List String) := []',
          'def cExitLeaksPy : List (Backend × String × String × List (String × Int)) := []',
          'def cNoRaiseLocal : List (Backend × List String) := []',
+         'def cDirectDecrefUsers : List (String × Nat) := []',
+         'def cModuleLevelRefs : List (Backend × Nat × String) := [(.cudd, 0, "reader failed")]',
          'end Gen']
     return '\n'.join(L) + '\n'
